@@ -11,6 +11,7 @@ import (
 	"fmt"
 	"math/rand/v2"
 	"sort"
+	"strings"
 	"sync"
 	"sync/atomic"
 	"time"
@@ -40,6 +41,7 @@ type Plan struct {
 	AddTopicLate   bool     `json:"add_topic_late"` // a second topic joins the subscription via AddConsumeTopics
 	Yield          int      `json:"yield_level"`
 	BlockRebalance bool     `json:"block_rebalance_on_poll"`
+	SlowRevokeMs   int      `json:"slow_revoke_ms"` // some OnPartitionsRevoked callbacks take this long (several heartbeat intervals)
 }
 
 type Event struct {
@@ -71,6 +73,7 @@ type Result struct {
 	Plan        Plan
 	Events      []Event
 	Overlaps    []Overlap
+	Unrevoked   []Overlap // partitions a member still owned (per its callbacks) when its Close returned
 	Converged   bool
 	FinalOwners map[string][]string // "topic/partition" -> owners at the end of the convergence wait
 	Committed   map[string]int64    // final committed offsets "topic/partition"
@@ -89,6 +92,8 @@ type monitor struct {
 	events    []Event
 	owners    map[string]map[string]bool // tp -> set of members
 	overlaps  []Overlap
+	unrevoked []Overlap
+	gone      map[string]bool
 	assigns   int
 	moves     int
 	lastOwner map[string]string
@@ -134,6 +139,36 @@ func (m *monitor) assignedStart(member string, parts map[string][]int32) {
 	}
 }
 
+// memberGone is called after a member's Close returned: whatever the monitor
+// still has it owning was never passed to OnPartitionsRevoked/Lost.
+func (m *monitor) memberGone(member string) {
+	m.mu.Lock()
+	defer m.mu.Unlock()
+	clk := m.tick()
+	if m.gone == nil {
+		m.gone = map[string]bool{}
+	}
+	m.gone[member] = true
+	for k, os := range m.owners {
+		if os[member] {
+			delete(os, member)
+			var t string
+			var p int32
+			if i := strings.LastIndex(k, "/"); i > 0 {
+				t = k[:i]
+				fmt.Sscan(k[i+1:], &p)
+			}
+			m.unrevoked = append(m.unrevoked, Overlap{Topic: t, Partition: p, PrevOwner: member, Clock: clk})
+			for i := range m.overlaps {
+				o := &m.overlaps[i]
+				if o.Topic == t && o.Partition == p && o.PrevOwner == member && o.ReleasedVia == "" {
+					o.ReleasedVia = "never (member closed)"
+				}
+			}
+		}
+	}
+}
+
 func (m *monitor) released(member, via string, parts map[string][]int32) {
 	m.mu.Lock()
 	defer m.mu.Unlock()
@@ -163,7 +198,7 @@ type member struct {
 
 func balancer(p string) kgo.GroupBalancer {
 	switch p {
-	case "range":
+	case "range", "848r":
 		return kgo.RangeBalancer()
 	case "roundrobin":
 		return kgo.RoundRobinBalancer()
@@ -291,7 +326,7 @@ func Run(plan Plan, watchdog time.Duration) (res *Result) {
 		cbrng := rand.New(rand.NewPCG(plan.Seed, uint64(5000+memSeq))) // callbacks run on kgo's goroutines
 		var cbMu sync.Mutex
 		ctx := context.Background()
-		if plan.Protocol == "848" {
+		if plan.Protocol == "848" || plan.Protocol == "848r" {
 			ctx = context.WithValue(ctx, "opt_in_kafka_next_gen_balancer_beta", true) //nolint
 		}
 		opts := []kgo.Opt{
@@ -310,7 +345,12 @@ func Run(plan Plan, watchdog time.Duration) (res *Result) {
 				mon.log(Event{Kind: "revoked-start", Member: name, Parts: parts})
 				cbMu.Lock()
 				e2e.Jitter(cbrng, 300)
+				slow := plan.SlowRevokeMs > 0 && cbrng.IntN(2) == 0
 				cbMu.Unlock()
+				if slow {
+					// a callback that outlasts heartbeats: the member still owns the partitions meanwhile
+					time.Sleep(time.Duration(plan.SlowRevokeMs) * time.Millisecond)
+				}
 				mon.released(name, "revoked", parts)
 			}),
 			kgo.OnPartitionsLost(func(_ context.Context, _ *kgo.Client, parts map[string][]int32) {
@@ -372,6 +412,7 @@ func Run(plan Plan, watchdog time.Duration) (res *Result) {
 		}
 		mon.log(Event{Kind: "close", Member: m.name})
 		m.cl.Close()
+		mon.memberGone(m.name)
 		memMu.Lock()
 		delete(live, m.name)
 		memMu.Unlock()
@@ -559,6 +600,7 @@ func Run(plan Plan, watchdog time.Duration) (res *Result) {
 	mon.mu.Lock()
 	res.Events = mon.events
 	res.Overlaps = mon.overlaps
+	res.Unrevoked = mon.unrevoked
 	res.Rebalances = mon.assigns
 	res.Moves = mon.moves
 	mon.mu.Unlock()
@@ -579,6 +621,8 @@ func (res *Result) JudgeOwnership() (vs []Violation, excused int) {
 		switch o.ReleasedVia {
 		case "lost":
 			excused++
+		case "never (member closed)":
+			// judged below, once per member, under its own signature
 		default:
 			via := o.ReleasedVia
 			if via == "" {
@@ -587,6 +631,15 @@ func (res *Result) JudgeOwnership() (vs []Violation, excused int) {
 			vs = append(vs, Violation{"partition-assigned-while-previous-owner-still-owns-it/" + res.Plan.Protocol,
 				fmt.Sprintf("%s/%d: OnPartitionsAssigned of %s began at clock %d while %s still owned it (its release: %s)", o.Topic, o.Partition, o.NewOwner, o.Clock, o.PrevOwner, via)})
 		}
+	}
+	seen := map[string]bool{}
+	for _, u := range res.Unrevoked {
+		if seen[u.PrevOwner] {
+			continue
+		}
+		seen[u.PrevOwner] = true
+		vs = append(vs, Violation{"member-closed-without-revoke-or-lost-callback-for-owned-partitions/" + res.Plan.Protocol,
+			fmt.Sprintf("member %s: Close returned while %s/%d (and possibly more) had been passed to OnPartitionsAssigned and never to OnPartitionsRevoked/Lost", u.PrevOwner, u.Topic, u.Partition)})
 	}
 	if res.Converged {
 		for k, os := range res.FinalOwners {
